@@ -2903,8 +2903,7 @@ class Scene:
         filename = kwargs.get("filename", None)
         if filename is not None:
             with open(filename, 'w') as file_handle:
-                json.dump(curr_state, file_handle, indent=4)
-                json.dump(pert_control_state, file_handle, indent=4)
+                json.dump([curr_state, pert_control_state], file_handle, indent=4)
 
         return curr_state, pert_control_state
 
